@@ -1288,6 +1288,8 @@ func main() {
 		e2eDepth = 4
 	}
 	e1(depth, true)
+	e4big()
+	res.Info["E4-big"] = "buffered completions of 1, 12, 100 and 300 KiB (as text and as a tool argument with an integer above 2^53), sent whole or in three pieces with a pause, through /olla/anthropic/v1/messages, both engines: the client receives what the translator produces for the same document"
 	closeE2E()
 	e1(depth-1, false)
 	e3()
